@@ -475,7 +475,10 @@ def formula_stream(ctx, lad):
     for k in range(max(1, nham // 2)):
         todo.append(('LR', eightfold(ctx.of, rng, 2), 4))
     for alg, ham, n in todo:
-        ref = Reference(ctx, lad, alg, ham, n)
+        ok, ref = safe(st, 'building the reference (decompositions of the library)', {'algorithm': alg,
+                       'hamiltonian': ham_json(alg, ham)}, lambda: Reference(ctx, lad, alg, ham, n))
+        if not ok:
+            continue
         orders = [0] if alg == 'LR' else [0, 1, 2]
         for order in orders:
             for n_steps in ([1, 2, 3] if order < 2 else [1, 2]):
@@ -521,7 +524,10 @@ def exactness_stream(ctx, lad):
                    ('SO', rand_dch(ctx.of, rng, 3, commuting=True), 3),
                    ('LR', eightfold(ctx.of, rng, 2, commuting=True), 4)]
         for alg, ham, n in configs:
-            ref = Reference(ctx, lad, alg, ham, n)
+            ok, ref = safe(st, 'building the reference (decompositions of the library)', {'algorithm': alg,
+                           'hamiltonian': ham_json(alg, ham)}, lambda: Reference(ctx, lad, alg, ham, n))
+            if not ok:
+                continue
             exact = lambda t: expm_h(ref.H, t)  # noqa: E731
             for order in ([0] if alg == 'LR' else [0, 1, 2, 3]):
                 for n_steps in ([1, 2, 3] if order < 3 else [1]):
@@ -549,7 +555,10 @@ def exactness_stream(ctx, lad):
         configs = [('LSN', rand_dch(ctx.of, rng, 3), 3), ('SO', rand_dch(ctx.of, rng, 3), 3),
                    ('LR', eightfold(ctx.of, rng, 2), 4)]
         for alg, ham, n in configs:
-            ref = Reference(ctx, lad, alg, ham, n)
+            ok, ref = safe(st, 'building the reference (decompositions of the library)', {'algorithm': alg,
+                           'hamiltonian': ham_json(alg, ham)}, lambda: Reference(ctx, lad, alg, ham, n))
+            if not ok:
+                continue
             time = 0.5
             E = expm_h(ref.H, time)
             for order in ([0] if alg == 'LR' else [0, 1, 2]):
